@@ -366,9 +366,13 @@ func (gb *gcpBalancer) getReadySubConnRef(boundKey string) (*subConnRef, bool) {
 					return gb.scRefs[sc], true
 				}
 				// Try to create fallback mapping.
-				if scRef, err := gb.picker.(*gcpPicker).getLeastBusySubConnRef(); err == nil {
-					gb.fallbackMap[boundKey] = scRef.subConn
-					return scRef, true
+				// The pool must not grow here: gb.mu is already held. Just take
+				// the least busy ready subconn of the current picker, if any.
+				if p, ok := gb.picker.(*gcpPicker); ok {
+					if scRef := p.getLeastBusyReadySubConnRef(); scRef != nil {
+						gb.fallbackMap[boundKey] = scRef.subConn
+						return scRef, true
+					}
 				}
 			}
 			return nil, true
